@@ -584,6 +584,8 @@ class Box(rigid.Box, Diagram):
         return Tensor.np.array(self.data).reshape(self.dom @ self.cod or (1, ))
 
     def grad(self, var, **params):
+        if var not in self.free_symbols:
+            return self.sum([], self.dom, self.cod)
         return self.bubble(
             func=lambda x: getattr(x, "diff", lambda _: 0)(var),
             drawing_name="$\\partial {}$".format(var))
